@@ -486,6 +486,7 @@ def drv_errors(case):
 # ----------------------------------------------------------------------------- C04
 def drv_build(case):
     puan, pg = _mods()
+    _prelude(case)
     r = case["recipe"]
     out = []
     lv = B.recipe_leaves(r)
@@ -1623,7 +1624,7 @@ def drv_determinism(case):
                     q = {"raised": type(ex).__name__}
                 out.append(q)
         return out
-    first = battery()
+    first = battery() if not case.get("noise_first") else None
     for r in case["noise"]:
         try:
             doc = B.to_json_recipe(r)
@@ -1643,6 +1644,8 @@ def drv_determinism(case):
         except BaseException:
             pass
     later = battery()
+    if first is None:
+        return [{"op": "det_part", "later": later}]          # compared (in the parent) with the same probes in a process that did nothing else
     return [{"op": "determinism", "first": first, "later": later}]
 
 def drv_derive_poke(case):
